@@ -1,4 +1,6 @@
 import JsonPathVerif.Paths
+import JsonPathVerif.ParsedOk
+import JsonPathVerif.Api
 /-! # C01 – selected nodes are exactly the RFC 9535 nodelist (with multiplicity); every result is a borrow -/
 namespace JP.C01
 open JP
@@ -37,5 +39,21 @@ the value at its location (and carries that location's Normalized Path, C03) -/
 theorem C01_borrow (E : Engine) (q : List Segment) (d : Json) (hd : d.plainKeys = true) (hn : nnSegs q)
     (ps : List Ptr) (h : jsPathProcess E q d = .ok ps) : ∀ p ∈ ps, d.at p.loc = some p.inner :=
   fun p hp => (result_paths E d hd q hn ps h p hp).2
+
+/-- end to end, on query STRINGS: for every string the parser accepts whose names and string literals contain no escape sequence
+(and which has the plain shape every grammatical query has: no empty bracketed selection, no doubled `..`, custom-function
+arguments that are values), evaluating the string over any document returns – as a multiset of (location, value) – exactly the
+RFC 9535 nodelist of the parsed query.  The typing hypothesis of `C01_partial` is discharged by `parse_wellTyped`. -/
+theorem C01_parsed (E : Engine) (s : Str) (q : List Segment) (d : Json) (hp : parseJsonPath s = .ok q)
+    (he : KF.escFreeSegs q = true) (hs : shSegs q = true) :
+    ∃ ps, jsPath E s d = .ok ps ∧ (ps.map toN).Perm (Spec.query E q d) := by
+  obtain ⟨ps, h1, h2⟩ := query_perm E d q (parsed_ok s q hp he hs)
+  exact ⟨ps, by simp [jsPath, hp, h1], h2⟩
+
+/-- in particular such an evaluation never returns `Err`: the only source of `Err` is the parser (C08) -/
+theorem parsed_never_errs (E : Engine) (s : Str) (q : List Segment) (d : Json) (hp : parseJsonPath s = .ok q)
+    (he : KF.escFreeSegs q = true) (hs : shSegs q = true) : ∃ ps, jsPath E s d = .ok ps := by
+  obtain ⟨ps, h, _⟩ := C01_parsed E s q d hp he hs
+  exact ⟨ps, h⟩
 
 end JP.C01
